@@ -100,7 +100,9 @@ let () =
             size_hist.(bucket_size bytes_total) <- size_hist.(bucket_size bytes_total) + 1;
             argc_hist.(bucket_argc (List.length hargs)) <- argc_hist.(bucket_argc (List.length hargs)) + 1;
             note_kind (lead_word model);
-            let nontrivial = String.length model >= 2 && String.sub model 0 2 = "OK" in
+            (* non-trivial = the model's answer is not an error / unusable-argument marker *)
+            let lw = lead_word model in
+            let nontrivial = not (List.mem lw ["ERR"; "Err"; "BADARG"; "LI-ERR"; "LOC-ERR"; "BOTH-ERR"; "PANIC"; "BADSTART"; "COMPILE-ERROR"; "UNKNOWN-OP"; "FUEL"; "(other)"; ""]) in
             if nontrivial then begin
               st.ok <- st.ok + 1;
               Hashtbl.replace distinct (Hashtbl.hash (op, hargs)) ()
